@@ -9,6 +9,7 @@ import json
 import math
 import os
 import re
+import sys
 
 import fw
 import progen
@@ -55,7 +56,9 @@ ASSUMPTIONS = [
     'the concrete driver host; that the GLOBALS at an abort are the unlimited run\'s globals at that point is checked on the '
     'implementation only (per-statement snapshots through logFn in fully-logged programs)',
     'Python recursion limit is not modelled (deep script recursion raises RecursionError inside the call wrapper, which turns it into '
-    'null - DESIGN section 6): generated recursion depth stays below 60 and infinite recursion is not generated',
+    'null - DESIGN section 6): generated recursion depth stays below 60 in the streams that are compared with the model and infinite '
+    'recursion is not generated; stream limit-values (recursion of 50..400 levels, whether it fits the host stack or not) is checked '
+    'with implementation-side oracles only',
     'the data functions (dataFilter, dataCalculatedField, dataJoin) are not in the Lean host: programs that call back script '
     'functions through them are checked with the implementation-side oracles only',
     'numbers in generated programs are exactly representable (additions of small integers only in fully-logged programs, so that an '
@@ -98,6 +101,14 @@ ASSUMPTIONS = [
     'most floor(x)), the rendering of the value inside the parentheses of the budget error (50.0, 11/2, True) is not compared; '
     '0 < x < 1 must let no statement start; 0.0, -0.0, False, Fraction(0), Decimal(0) and infinity are run on terminating programs only '
     'and must give the unlimited outcome; None, strings, NaN and negative limits are not run (the statement says nothing about them)',
+    'stream limit-values: the host stack is a host resource the Lean model does not have - implementation-side oracles only; a run '
+    'whose recursion does not fit the host stack still completes (RecursionError becomes null inside the call wrapper) and its '
+    'outcome then depends on the number of host frames available when execute_script is called: the runs that are compared (reference '
+    'under 0, the default, every limit >= N) are therefore made from one call site at one stack depth under one recursion limit (as '
+    'the process has it, or set by the harness to frames-in-use + 350 / 3000 / 6000 and restored), after one warm-up run; outcomes '
+    'under different headrooms are never compared with each other; that the recursion limit of the process is unchanged by '
+    'execute_script is read as part of "behaves identically" (a host that runs two scripts must not find the second one in a '
+    'different configuration)',
 ]
 TRUSTED = ['reference statement interpreter with its own statement counter (props/C08.py RefStatements + includes and their name resolution), '
            'the static statement count of straight-line programs, the fully-logged '
@@ -106,6 +117,7 @@ TRUSTED = ['reference statement interpreter with its own statement counter (prop
            'announced in the premarks mode), '
            'the repeated-data-call generator (datax_case: every statement logs first, include / function statements announced), the host '
            'limit forms table (LIMIT_FORMS / UNLIMITED_FORMS / BELOW_ONE_FORMS: value of each form), '
+           'the limit-value driver (value_runs / run_value: one call site, host stack headroom set and restored by the harness), '
            'the logFn snapshot probe and the options-history driver (run_impl with a prep: earlier runs, copied options, stale '
            'counter; the reference run on a brand-new options dict) in harness/props/C09.py (the property oracles)']
 
@@ -2039,11 +2051,245 @@ def replay_form(witness):
     return any(b[0] == witness['oracle'] for b in bad)
 
 
+# ---------------------------------------------------------------------------------------------------------------------
+# the VALUE of a limit that is not reached (stream 'limit-values').  "A run that completes after N statements behaves identically
+# under every limit >= N and under 0": the limit is a bound, not a parameter of the execution - nothing a run does may be sized,
+# switched or tuned by the number in maxStatements as long as that number is not reached.  What makes a run sensitive to such
+# tuning is host resources: deep script recursion lives on the host stack (CPython turns an exhausted stack into RecursionError,
+# the call wrapper turns that into null and the script carries on), long loops and call-back chains on host time / counters.
+# So: programs from every family, and directed ones (recursion 50..400 levels with the recursive call 0..4 expression nodes deep
+# - direct, statement-wise with log lines and global writes, mutual through function arguments, through a library call-back,
+# through partials -, loops of 9..700 iterations with calls / call-backs), are run under 0 (the reference), under no
+# maxStatements key, and under N, N+1, N+2, 1.25N, 1.5N, 2N, 3N, 5N, 10N, 1000, 2500, 10000, 1e6, 1e9, 1e9+1, 2^31, 2^63, 1e18
+# (those >= N) - all from the same host stack depth, and with the host stack headroom as a CONFIGURATION: the recursion limit
+# of the process as it is, and set by the harness to (frames in use) + 350 / 3000 / 6000 around the runs (restored afterwards).
+# Whether the recursion fits the host stack or not, the outcomes must be identical; the recursion limit of the process must be
+# what it was when execute_script returns or raises.  The Lean model has no host stack (ASSUMPTIONS): implementation-side
+# oracles only.
+# ---------------------------------------------------------------------------------------------------------------------
+
+VALUE_DEPTHS = [50, 64, 65, 100, 101, 128, 129, 200, 256, 300, 340, 400]
+VALUE_ITERS = [9, 10, 11, 64, 65, 100, 256, 700]
+VALUE_BIG = [1000, 2500, 10000, 10 ** 6, 10 ** 9, 10 ** 9 + 1, 2 ** 31, 2 ** 63, 10 ** 18]
+VALUE_CAP = 20000
+HEADROOMS = {'default': None, 'lowered': 350, 'raised': 3000, 'raised-high': 6000}
+NUM_WRAPS = ['0 + {}', '({})', 'mathMax(0, {})', 'if(true, {}, 0)', '-(-{})', '{} * 1', 'arrayGet(arrayNew({}), 0)', 'mathFloor({})']
+BOOL_WRAPS = ['!(!{})', '({})', 'if({}, true, false)', '{} && true', 'arrayGet(arrayNew({}), 0)', 'false || {}']
+VALUE_SHAPES = {
+    'return-expr': ("function f(n):\n    return if(n > 0, 1 + @, 0)\nendfunction\nsystemLog('start')\ntotal = f(DEPTH)\n"
+                    "systemLog('total = ' + total)\nreturn total", 'f(n - 1)', NUM_WRAPS, 'depth'),
+    'statements': ("function f(n):\n    systemLog('in ' + n)\n    if n <= 0:\n        return 0\n    endif\n    r = @\n"
+                   "    systemGlobalSet('seen', systemGlobalGet('seen') + 1)\n    return r + 1\nendfunction\nseen = 0\ntotal = f(DEPTH)\n"
+                   "systemLog('total = ' + total + ' seen = ' + seen)\nreturn total", 'f(n - 1)', NUM_WRAPS, 'depth'),
+    'mutual-arg': ("function even(n, other):\n    return if(n == 0, true, @)\nendfunction\nfunction odd(n, other):\n"
+                   "    return if(n == 0, false, @)\nendfunction\nsystemLog('start')\nresult = even(DEPTH, odd)\n"
+                   "systemLog('even = ' + result)\nreturn result", 'other(n - 1, SELF)', BOOL_WRAPS, 'even'),
+    'callback': ("function p(v):\n    systemGlobalSet('calls', systemGlobalGet('calls') + 1)\n    return if(v <= 0, true, @)\nendfunction\n"
+                 "calls = 0\nr = p(DEPTH)\nsystemLog('r = ' + r + ' calls = ' + calls)\nreturn r",
+                 'arrayIndexOf(arrayNew(v - 1), p) == 0', BOOL_WRAPS, 'true'),
+    'partial': ("function f(k, n):\n    if n <= 0:\n        return 0\n    endif\n    g = systemPartial(f, k)\n    return k + @\nendfunction\n"
+                "total = f(1, DEPTH)\nsystemLog('total = ' + total)\nreturn total", 'g(n - 1)', NUM_WRAPS, 'depth'),
+}
+VALUE_LOOPS = {
+    'while-call': ("function step(i):\n    return i % 3\nendfunction\ni = 0\ns = 0\nwhile i < ITER:\n    s = s + @\n    i = i + 1\nendwhile\n"
+                   "systemLog('s = ' + s)\nreturn s", 'step(i)', NUM_WRAPS),
+    'for-callback': ("function pq(t, v):\n    return v == t\nendfunction\nfunction cmp(a, b):\n    return b - a\nendfunction\nvals = arrayNew(4, 1, 3, 0, 2)\n"
+                     "xs = arrayNew()\ni = 0\nfill:\narrayPush(xs, i)\ni = i + 1\njumpif (i < ITER) fill\ns = 0\nfor x, ix in xs:\n"
+                     "    s = s + @\n    if ix % 50 == 0:\n        arraySort(arrayCopy(vals), cmp)\n        systemLog('at ' + ix + ': ' + s)\n    endif\nendfor\n"
+                     "return s", 'arrayIndexOf(vals, systemPartial(pq, x % 5))', NUM_WRAPS),
+    'jump-chain': ("function c1(v):\n    return c2(v) + 1\nendfunction\nfunction c2(v):\n    return arrayIndexOf(arrayNew(v), c3)\nendfunction\n"
+                   "function c3(v):\n    w = systemPartial(c4, v)\n    return w(1)\nendfunction\nfunction c4(v, k):\n    return v + k > 0\nendfunction\n"
+                   "i = 0\ns = 0\nloop:\ns = s + @\ni = i + 1\njumpif (i < ITER) loop\nsystemLog('s = ' + s)\nreturn s", 'c1(i)', NUM_WRAPS),
+}
+
+
+def value_case(rng, shape=None, depth=None, k=None):
+    """deep recursion: `depth` levels, the recursive call under k wrapper expression nodes (on top of those of the shape)"""
+    shape = shape or rng.choice(sorted(VALUE_SHAPES))
+    depth = depth if depth is not None else rng.choice(VALUE_DEPTHS)
+    k = k if k is not None else rng.randint(0, 4)
+    text, call, pool, expect = VALUE_SHAPES[shape]
+    parts = text.split('@')
+    out = parts[0]
+    for ix, part in enumerate(parts[1:]):
+        expr = call.replace('SELF', ['even', 'odd'][ix % 2])
+        for _ in range(k):
+            expr = rng.choice(pool).format(expr)
+        out += expr + part
+    want = float(depth) if expect == 'depth' else (depth % 2 == 0) if expect == 'even' else True
+    return {'family': 'value', 'text': out, 'files': None, 'globals': {'DEPTH': depth}, 'nfun': None, 'expect': want, 'deep': True,
+            'tags': ['deep-recursion', 'shape:' + shape, f'levels:{depth}', f'expr-depth:{k}']}
+
+
+def value_loop_case(rng, shape=None, iters=None):
+    shape = shape or rng.choice(sorted(VALUE_LOOPS))
+    iters = iters if iters is not None else rng.choice(VALUE_ITERS)
+    text, call, pool = VALUE_LOOPS[shape]
+    expr = call
+    for _ in range(rng.randint(0, 3)):
+        expr = rng.choice(pool).format(expr)
+    return {'family': 'value', 'text': text.replace('@', expr), 'files': None, 'globals': {'ITER': iters}, 'nfun': None,
+            'tags': ['long-loop', 'shape:' + shape, f'iterations:{iters}']}
+
+
+def value_directed(rng, quick):
+    """every recursion shape x every expression depth at a depth beyond the default host stack (>= 200 levels) and one within; every loop
+    shape at its largest size"""
+    cases = []
+    for shape in sorted(VALUE_SHAPES):
+        for k in range(5):
+            cases.append(value_case(rng, shape, rng.choice([200, 256, 300, 340, 400]), k))
+        cases.append(value_case(rng, shape, rng.choice([50, 64, 65, 100, 101]), rng.randint(0, 4)))
+    for shape in sorted(VALUE_LOOPS):
+        cases.append(value_loop_case(rng, shape, 256 if quick else 700))
+    return cases
+
+
+def value_limits(rng, n):
+    """the limits >= n of the value axis (None = no maxStatements key) + three limits below n (the abort path)"""
+    ls = {n, n + 1, n + 2, n + n // 4, n + n // 2, 2 * n, 3 * n, 5 * n, 10 * n, rng.randint(n, 4 * n + 1000)}
+    ls |= {big for big in VALUE_BIG if big >= n}
+    below = {l for l in (1, n // 2, n - 1) if 0 < l < n}
+    return sorted(below) + sorted(ls) + [None]
+
+
+def _frames_in_use():
+    depth, frame = 0, sys._getframe()           # pylint: disable=protected-access
+    while frame is not None:
+        depth, frame = depth + 1, frame.f_back
+    return depth
+
+
+def run_value(model, case, limit, room):
+    """run_impl with the host stack headroom `room` (a key of HEADROOMS) as a configuration -> (outcome, snapshots, change of the
+    recursion limit of the process across the run); the callers make all runs of one comparison from the same stack depth"""
+    old = sys.getrecursionlimit()
+    headroom = HEADROOMS[room]
+    try:
+        if headroom is not None:
+            sys.setrecursionlimit(_frames_in_use() + headroom)
+        before = sys.getrecursionlimit()
+        out, snaps = run_impl(model, case, limit)
+        delta = sys.getrecursionlimit() - before
+    finally:
+        sys.setrecursionlimit(old)
+    return out, snaps, delta
+
+
+def value_oracles(case, model, ref, ref_snaps, limit, out, snaps, delta):
+    """ref: the outcome under 0 (a run that completes after ref['count'] statements); out: the outcome under `limit` (None = default)"""
+    bad = []
+    if delta != 0:
+        bad.append(('host-recursion-limit-restored', {'change': 0}, {'change': delta}))
+    if 'hostexc' in out:
+        return bad + [('no-host-exception', None, out['hostexc'])]
+    fully = case['family'] in FULLY
+    if limit is None or limit == 0 or limit >= ref['count']:
+        if out != ref or (fully and snaps != ref_snaps):
+            bad.append(('identical-for-every-limit-value', ref, out))
+    else:
+        bad += budget_oracles(case, model, ref, ref_snaps, limit, out, snaps if fully else None)
+    return bad
+
+
+def value_runs(model, case, room, limits_fn):
+    """All runs of one comparison, made in ONE loop of ONE function so that every execute_script starts from the same host stack depth
+    (one frame more or less moves the level at which a deep recursion overflows): first a run under VALUE_CAP - it tells whether the
+    program completes, and it warms the process up (whatever the implementation or the harness builds lazily on a first run is
+    built before the runs that are compared) -, then the reference under 0, then the limits limits_fn(N).
+    -> None (the program does not complete under the cap) | [(limit, outcome, snapshots, change of the recursion limit)], reference first"""
+    runs = []
+    todo = [VALUE_CAP, 0]
+    ix = 0
+    while ix < len(todo):
+        limit = todo[ix]
+        ix += 1
+        out, snaps, delta = run_value(model, case, limit, room)              # the one call site of all runs
+        failed = 'hostexc' in out or 'error' in out
+        if ix == 1:
+            if failed:
+                return None
+            continue
+        runs.append((limit, out, snaps, delta))
+        if ix == 2 and not failed:
+            todo += list(limits_fn(out['count']))
+    return runs
+
+
+def check_values(ctx, st, case, model, rng, room):
+    runs = value_runs(model, case, room, lambda n: value_limits(rng, n))
+    if not runs or len(runs) == 1:
+        return
+    _, ref, ref_snaps, _ = runs[0]
+    lib = fw.impl()['library'].SCRIPT_FUNCTIONS
+    fits = 'expect' not in case or ref.get('result') == progen.value_to_wire(case['expect'], lib)
+    for limit, out, snaps, delta in runs[1:]:
+        above = limit is None or limit >= ref['count']
+        st.case(case_key(case) + [case['globals'] if case['family'] == 'value' else None, limit, room], nontrivial=above or limit == ref['count'] - 1,
+                tags=['limit:' + ('default' if limit is None else 'below-N' if not above else 'N..N+2' if limit <= ref['count'] + 2 else
+                                  '<=10N' if limit <= 10 * ref['count'] else 'large'),
+                      'headroom:' + room, 'host-stack:' + ('fits' if fits else 'overflows'), 'family:' + case['family']]
+                + (case['tags'] if limit is None else []))
+        for oracle, expected, actual in value_oracles(case, model, ref, ref_snaps, limit, out, snaps, delta):
+            ctx.witness(oracle, {'case': case, 'limit': limit, 'headroom': room}, expected, actual)
+
+
+def stream_limit_values(ctx, ndeep, nloops, nother, name='limit-values'):
+    rng = ctx.rng(name)
+    st = ctx.stream(name,
+                    'THE VALUE OF A LIMIT THAT IS NOT REACHED (implementation-side oracles only: the Lean model has no host stack and no '
+                    'host limits): directed programs - script recursion of 50, 64, 65, 100, 101, 128, 129, 200, 256, 300, 340, 400 levels with '
+                    'the recursive call under 0..4 wrapper expression nodes (binary, group, unary, if(), library-call argument) in 5 shapes: in '
+                    'a return expression, statement-wise with a log line and a global write per level, mutual recursion through function '
+                    'arguments, through an arrayIndexOf call-back, through systemPartial values (every shape x every expression depth at '
+                    '>= 200 levels + one shallow, and random ones); loops of 9, 10, 11, 64, 65, 100, 256, 700 iterations (while with a call, '
+                    'for with arrayIndexOf / systemPartial / arraySort call-backs, jump loop over a call-back chain of four functions) - and '
+                    'terminating generated programs of every family (fl, rinc, datax, include, tailcb, partial, gen); each run under 0 (the '
+                    'reference), without a maxStatements key (the default) and under N, N+1, N+2, 1.25N, 1.5N, 2N, 3N, 5N, 10N, a sample in '
+                    'N..4N+1000, 1000, 2500, 10000, 1e6, 1e9, 1e9+1, 2^31, 2^63, 1e18 (those >= N) and under 1, N/2, N-1; HOST STACK HEADROOM '
+                    'as a configuration: the recursion limit of the process as it is, and set by the harness to frames-in-use + 350 / 3000 / '
+                    '6000 around the runs (quick: as it is + one of the three; restored afterwards), all runs of one comparison from the same '
+                    'stack depth; oracles: result, error, log, globals, statementCount (+ global snapshots of fully-logged programs) '
+                    'identical to the reference under every limit >= N and the default - whether the recursion fits the host stack (the '
+                    'result is then the closed form: tag host-stack:fits) or not (RecursionError -> null inside the call wrapper: tag '
+                    'host-stack:overflows) -, the oracles of stream budget under the limits below N, and the recursion limit of the process '
+                    'is the same after execute_script as before (completed and aborted runs); non-trivial = limit >= N - 1 or the default')
+    parser = fw.impl()['parser']
+    cases = value_directed(rng, ctx.quick) + [value_case(rng) for _ in range(ndeep)] + [value_loop_case(rng) for _ in range(nloops)]
+    others = [fl_case, rinc_case, datax_case, include_case, tailcb_case, partial_case, gen_case]
+    for ix in range(nother):
+        case = others[ix % len(others)](rng)
+        if 'nonterm' not in case['tags']:
+            cases.append(case)
+    extra = [room for room in HEADROOMS if room != 'default']
+    for case in cases:
+        if c08.HANGS[0] >= 3:
+            ctx.notes.append('stream stopped: the implementation did not stop under maxStatements in 3 runs')
+            break
+        model = parser.parse_script(case['text'])
+        for room in ['default'] + ([rng.choice(extra)] if ctx.quick or not case.get('deep') else extra):
+            check_values(ctx, st, case, model, rng, room)
+
+
+def replay_value(witness):
+    inp = witness['input']
+    case = inp['case']
+    model = fw.impl()['parser'].parse_script(case['text'])
+    runs = value_runs(model, case, inp['headroom'], lambda n: [inp['limit']])
+    if not runs or len(runs) == 1:
+        return False
+    (_, ref, ref_snaps, _), (limit, out, snaps, delta) = runs
+    if witness['oracle'] == 'run-stops-within-budget':
+        return out.get('hostexc', '').startswith('Hang')
+    return any(b[0] == witness['oracle'] for b in value_oracles(case, model, ref, ref_snaps, limit, out, snaps, delta))
+
+
 def streams(ctx):
     stream_budget(ctx, ctx.scale(260, 3500))          # thorough: 3500 (was 4000) - the time went to the two streams below
     stream_tail(ctx, ctx.scale(40, 1000), ctx.scale(1, 5))
     stream_datax(ctx, ctx.scale(30, 220), ctx.scale(6, 24))
     stream_limit_forms(ctx, ctx.scale(15, 80))
+    stream_limit_values(ctx, ctx.scale(4, 40), ctx.scale(3, 20), ctx.scale(14, 100))
 
 
 def disagreement_known(d, known):
@@ -2060,6 +2306,8 @@ def replay(witness):
         return False
     if 'form' in inp:
         return replay_form(witness)
+    if 'headroom' in inp:
+        return replay_value(witness)
     # first as the check ran it - after the earlier runs of the same case in this process -, then the run alone
     if (inp.get('before') or inp.get('before_prep')) and replay_once(witness, True):
         return True
@@ -2145,7 +2393,12 @@ LEVEL_TEXT = ('Theorems about the Lean mirror of the runtime (one counter in the
               'include, call functions that include, make nested data calls or run library call-backs; in loops, functions, match '
               'functions and recursion; 9..129 calls or 9..17 rows on a scale axis) under every limit, and the limit in its host forms '
               '(float, Fraction, Decimal, int subclass, bool, non-integral and below-one values, zero forms and infinity, options objects of '
-              'other dict classes) are checked with implementation-side oracles only. A run does not depend on the counter the state holds when it starts '
+              'other dict classes) are checked with implementation-side oracles only. The VALUE of a limit that is not reached must not matter: '
+              'deep recursion (50..400 levels, recursive call 0..4 expression nodes deep, direct / statement-wise / mutual / through call-backs / '
+              'through partials), long loops, call-back chains and programs of every family give the identical result, log, globals and '
+              'statementCount under 0, the default and N, N+1, .., 10N, 1000, 2500, 10000, 1e6, 1e9, 2^31, 2^63, 1e18, with the host stack '
+              'headroom as it is, lowered and raised by the harness, and leave the recursion limit of the process as it was '
+              '(implementation-side oracles only). A run does not depend on the counter the state holds when it starts '
               '(own_budget, own_budget_session), tied to the code by running every program on options objects with a history (earlier '
               'runs on the same dict - completed, aborted, failed, other limits -, copied dicts, host-provided statementCount, kept or '
               'reset globals, debug, no maxStatements key, two-script sessions whose second script calls the functions of the first): '
